@@ -237,3 +237,36 @@ Theorem C05_coll_replace_example :
   /\ CollReplace.coll_replace true false false [1; 2]%Z [5]%Z = CollReplace.NoChange.
 Proof. exact CollReplaceProofs.coll_example. Qed.
 Print Assumptions C05_coll_replace_example.
+
+(* update is text-only (Model/Tokens.v): when the comparison of _utils.normalize / simple_token.__eq__ reports no update, the argument and the
+   canonical code are the same token sequence - string tokens by value, every other token literally - up to implicit concatenation and trailing commas *)
+From V Require Model.StrLit Model.Tokens Proofs.TokensProofs.
+Theorem C05_no_update_same_denotation :
+  forall (printable : StrLit.cp -> bool) (node canon : list Tokens.tok),
+  Tokens.needs_update_norm printable node canon = Some false ->
+  exists n c, Tokens.normalize printable node = Some n /\ Tokens.normalize printable canon = Some c /\ map Tokens.denot n = map Tokens.denot c.
+Proof. exact TokensProofs.no_update_same_denotation. Qed.
+Print Assumptions C05_no_update_same_denotation.
+
+Theorem C05_no_update_same_denotation_leaf :
+  forall (printable : StrLit.cp -> bool) (node canon : list Tokens.tok),
+  Tokens.needs_update_leaf printable node canon = Some false ->
+  exists n, Tokens.normalize printable node = Some n /\ map Tokens.denot n = map Tokens.denot canon.
+Proof. exact TokensProofs.no_update_same_denotation_leaf. Qed.
+Print Assumptions C05_no_update_same_denotation_leaf.
+
+(* implicit concatenation is normalised to the repr of the joined value *)
+Theorem C05_implicit_concatenation_joined :
+  forall (printable : StrLit.cp -> bool) (a b : Tokens.tok) (f : bool) (va vb : StrLit.str),
+  Tokens.is_simple_string a = true -> Tokens.is_simple_string b = true ->
+  Tokens.lit_eval (Tokens.tx a) = Some (Tokens.SV f va) -> Tokens.lit_eval (Tokens.tx b) = Some (Tokens.SV f vb) ->
+  Tokens.norm_strings printable None [a; b] = Some [Tokens.Tok 3 (Tokens.repr_sval printable (Tokens.SV f (va ++ vb)))].
+Proof. exact TokensProofs.norm_strings_concat. Qed.
+Print Assumptions C05_implicit_concatenation_joined.
+
+Theorem C05_update_examples :
+  Tokens.needs_update_leaf (fun _ => true) [Tokens.Tok 3 [34; 97; 34]; Tokens.Tok 3 [39; 98; 39]]%N [Tokens.Tok 3 [39; 97; 98; 39]]%N = Some false
+  /\ Tokens.needs_update_leaf (fun _ => true) [Tokens.Tok 3 [34; 97; 34]]%N [Tokens.Tok 3 [39; 97; 39]]%N = Some false
+  /\ Tokens.needs_update_leaf (fun _ => true) [Tokens.Tok 2 [48; 120; 49]]%N [Tokens.Tok 2 [49]]%N = Some true.
+Proof. exact TokensProofs.quotes_and_concat_no_update. Qed.
+Print Assumptions C05_update_examples.
